@@ -203,6 +203,15 @@ def handler(case):
                             reverse_complement=True, n_jobs=1)
                 rec["rc_p_same"] = bool(torch.allclose(r2[0], r[0], rtol=1e-9, atol=1e-12))
                 rec["rc_score_same"] = bool((r2[1] == r[1]).all())
+            # the SAME list object again after it was changed in place (two targets swapped): results follow the content
+            if k % 3 == 0 and len(Ts) >= 2 and Ts[0].shape != Ts[-1].shape:
+                tl = [torch.from_numpy(t.copy()) for t in Ts]
+                kws = dict(n_score_bins=c["n_bins"], n_target_bins=None, reverse_complement=c["rc"], n_jobs=1)
+                ra = tomtom([Q], tl, **kws)
+                tl[0], tl[-1] = tl[-1], tl[0]
+                rb = tomtom([Q], tl, **kws)
+                perm = list(range(len(tl))); perm[0], perm[-1] = perm[-1], perm[0]
+                rec["inplace_same"] = bool(torch.equal(ra[:, 0], r[:, 0])) and bool(torch.equal(rb[:, 0][:, perm], r[:, 0]))
             # column hashing, where it is injective (distinct pooled target columns get distinct codes), must not change anything:
             # the same call with n_target_bins=100, then with the target list reversed, then reverse-complemented -- all in this
             # process, one after the other (same shapes and sums, different column order)
